@@ -555,6 +555,9 @@ struct Scan {
     /// p(rho_max) < p: a root beyond the scanned range is possible
     beyond: bool,
     nan: usize,
+    /// non-finite pressures at grid densities below the largest root (holes in the isotherm
+    /// between the branches; non-finite values beyond the liquid root do not count)
+    nan_inside: usize,
     evals: usize,
 }
 
@@ -662,11 +665,14 @@ fn scan_roots<E: Residual>(
         }
         last = sgn;
     }
+    let top = roots.iter().map(|r: &Root| r.rho).fold(0.0, f64::max);
+    let nan_inside = grid.iter().zip(&f).filter(|(r, v)| **r < top && !v.is_finite()).count();
     Scan {
         roots,
         extrema,
         beyond,
         nan,
+        nan_inside,
         evals,
     }
 }
@@ -902,6 +908,17 @@ pub fn check_tp(case: &TpCase, obs: &mut Obs) {
     if !single_loop {
         obs.class("multi-loop isotherm (branch and Gibbs clauses not asserted)");
     }
+    // a model whose pressure is not a number on part of (0, max_density] (diverging association
+    // iteration of a random parameter set) has no isotherm on which "the vapour / liquid branch"
+    // or "the root of lower Gibbs energy" could be identified: only the echo and pressure
+    // clauses are asserted for it (false alarm of seed 301, DESIGN 12)
+    let defined = scan.nan_inside == 0;
+    if !defined {
+        obs.class("isotherm with undefined (NaN) pressure below its largest root (branch and Gibbs clauses not asserted)");
+    } else if scan.nan > 0 {
+        obs.class("NaN pressure only beyond the largest root");
+    }
+    let single_loop = single_loop && defined;
     let two_branches = pat == "SUS" && single_loop;
     // started on the other side of the unstable region (or inside it)?
     let mut wrong_side = false;
@@ -996,7 +1013,7 @@ pub fn check_tp(case: &TpCase, obs: &mut Obs) {
     if two_branches || near_crit || wrong_side {
         obs.nontrivial();
     }
-    let _ = (scan.nan, scan.evals);
+    let _ = scan.evals;
 }
 
 // ---------------------------------------------------------------------------------------
